@@ -429,6 +429,14 @@ impl VTable {
 		Ok(VTable(Arc::new(Table::new(id, Arc::clone(opts), file, size)?)))
 	}
 
+	/// Open a table from a real file (the production `File` implementation).
+	pub fn open_file(opts: &Arc<Options>, id: u64, path: &Path) -> Result<VTable> {
+		let file = std::fs::File::open(path)?;
+		let size = file.metadata()?.len();
+		let file: Arc<dyn VfsFile> = Arc::new(file);
+		Ok(VTable(Arc::new(Table::new(id, Arc::clone(opts), file, size)?)))
+	}
+
 	/// Point lookup exactly as `Snapshot::get` issues it.
 	pub fn get(&self, user_key: &[u8], snapshot_seq: u64) -> Result<Option<VEntry>> {
 		let ikey = InternalKey::new(user_key.to_vec(), snapshot_seq, InternalKeyKind::Set, 0);
